@@ -89,8 +89,11 @@ def r38(F):
                    "on the Err edge of every VM::fcall_impl call and of the module-body run in op_copy, Error::push_call_stack is "
                    "passed before the error leaves the function", floor=11)
     cg = callgraph.get(F)
-    sites = cg.call_sites(FCALL)
+    xs = util.expanded_call_sites(F, cg, FCALL)
+    vias = {(n, b): via for n, b, via in xs}
+    sites = [(n, b) for n, b, via in xs]
     need(len(sites) >= 10, "fcall_impl call sites not found (%d)" % len(sites))
+    fw = util.forwarders(F, FCALL)
     for n, b in sorted(sites):
         fn = F.fn(n)
         t = fn.term(b)
@@ -98,6 +101,19 @@ def r38(F):
         ees = util.err_edges(fn, t["dest"]["l"])
         need(ees, "result of fcall_impl is neither matched nor propagated with `?` at %s" % fn.where(b))
         ok = bool(pcs) and all(util.must_pass(fn, ee, pcs, exits=cfg.exits(fn)) for ee in ees[:1])
+        via = vias.get((n, b))
+        if not ok and via is not None:
+            # the helper the call goes through records the frame itself, with a position handed in by this caller
+            g, gb = fw[via]
+            gp = {bb for bb, tt in g.calls() if callee(tt).endswith("Error::push_call_stack")}
+            ge = util.err_edges(g, g.term(gb)["dest"]["l"])
+            og = Origins(g)
+            if gp and ge and all(util.must_pass(g, ee, gp, exits=cfg.exits(g)) for ee in ge[:1]):
+                pidx = [l[1] for pb in gp for l in og.at(g.term(pb)["args"][1], pb) if l[0] == "param"]
+                if pidx:
+                    oc = Origins(fn)
+                    labs = oc.at(t["args"][pidx[0] - 1], b)
+                    ok = not any(l[0] == "call" and (l[1] == FCALL or l[1] in fw) for l in labs)
         r.inst("%s->fcall_impl" % n.split("::")[-1], fn.where(b), ok, "Err edge records the calling position" if ok else
                "an error from inside the called function leaves %s without the caller's position (no VIA line)" % n.split("::")[-1])
         # the recorded position is a position of the call (the handler's pos parameter, a popped operand), never one that came
